@@ -100,7 +100,7 @@ fn render_history(fl: &Flat, calls: &[(Vec<usize>, Option<DepthSort>)], test: Op
     Ok((c, z))
 }
 
-fn permutations(n: usize) -> Vec<Vec<usize>> {
+pub(crate) fn permutations(n: usize) -> Vec<Vec<usize>> {
     fn rec(cur: &mut Vec<usize>, used: &mut Vec<bool>, n: usize, out: &mut Vec<Vec<usize>>) {
         if cur.len() == n {
             out.push(cur.clone());
